@@ -329,7 +329,18 @@ func (p *Prog) CheckProperty(prop, tier string, seed int) *CheckResult {
 	for _, u := range units {
 		ran[u] = true
 	}
+	refGaps := map[string]int{}
+	seenExec := map[*Exec]bool{}
 	collect := func(e *Exec) {
+		if seenExec[e] {
+			return
+		}
+		seenExec[e] = true
+		for k, n := range e.refineGaps {
+			if n > refGaps[k] {
+				refGaps[k] = n
+			}
+		}
 		for k := range e.refineNotes {
 			res.RefNotes[k] = true
 		}
@@ -678,6 +689,7 @@ func (p *Prog) CheckProperty(prop, tier string, seed int) *CheckResult {
 		}
 	}
 	res.Extra["__linked"] = linked
+	res.Extra["__gaps"] = refGaps
 	for _, k := range keys(res.Stale) {
 		res.Lines = append(res.Lines, "NOTE stale-contract: "+k)
 	}
@@ -735,7 +747,10 @@ func (r *CheckResult) writeEvidence() {
 			}
 			if ct.IsIface {
 				linked, _ := r.Extra["__linked"].(map[string]string)
-				if by, ok := linked[k]; ok {
+				gaps, _ := r.Extra["__gaps"].(map[string]int)
+				if by, ok := linked[k]; ok && gaps[k] > 0 {
+					assumptions = append(assumptions, fmt.Sprintf("interface contract assumed for every implementation; its link to the repository's implementation is PARTLY proved in this run (refinement obligations of %s; %d clause(s) mention ghost state without a coupling and stay linked by reading, see coverage.refinement_notes): %s", by, gaps[k], k))
+				} else if ok {
 					assumptions = append(assumptions, "interface contract used at call sites; its link to the repository's implementation is PROVED in this run (refinement obligations of "+by+" under the coupling definitions listed in coverage.couplings; clauses labelled assumed-* excepted): "+k)
 				} else if len(r.RefOf[k]) > 0 {
 					assumptions = append(assumptions, "interface contract assumed for every implementation (a refinement by "+strings.Join(r.RefOf[k], ", ")+" is declared but not fully discharged in this run): "+k)
